@@ -8,6 +8,7 @@ from ..core import astutil as A
 from ..core.loader import AnalysisError
 from ..core.report import norm
 from ..core.symtab import UNKNOWN, struct_items, byte_order
+from ..engines.ordereval import Obj
 from ..engines import bitprov, ordereval, regexlang
 
 MISC = "spsdk/utils/misc.py"
@@ -424,14 +425,39 @@ def rule_value_to_int(ctx) -> None:
         e_out = norm(dflt["endianness"])
         ctx.chk.decide(e_in == e_out, "C20.value_bytes.endianness", fn.qual, f"value_to_int(bytes) uses {e_in}, value_to_bytes defaults to {e_out}",
                        f"value_to_int(bytes) uses {e_in} but value_to_bytes defaults to {e_out}", "same byte order", A.loc(MISC, fb[0]))
-    tb = A.calls_in(vb.node, "to_bytes")
-    if len(tb) != 1:
-        raise AnalysisError("C20.value_to_bytes: expected one to_bytes call")
-    inner = A.calls_in(tb[0], "get_bytes_cnt_of_int")
-    ok = bool(inner) and norm(inner[0].args[0]) == "value" and norm(A.arg_of(inner[0], 1, "align_to_2n")) == "align_to_2n" and norm(A.arg_of(inner[0], 2, "byte_cnt")) == "byte_cnt"
-    ok = ok and "endianness" in norm(tb[0].args[1] if len(tb[0].args) > 1 else tb[0])
-    ctx.chk.decide(ok, "C20.value_to_bytes.routing", vb.qual, "to_bytes(get_bytes_cnt_of_int(value, align_to_2n, byte_cnt), endianness)",
-                   norm(tb[0]), "width from get_bytes_cnt_of_int(value, align_to_2n, byte_cnt=byte_cnt), order from endianness", A.loc(MISC, tb[0]))
+    # value_to_bytes evaluated on models: the integer (value_to_int is the identity on ints) is rendered at the width that
+    # get_bytes_cnt_of_int(value, align_to_2n, byte_cnt) returns, in the requested byte order - whatever the locals are called
+    probs = []
+
+    def cv_vb(c: ast.Call, ev):
+        f = norm(c.func)
+        if f == "value_to_int" and c.args:
+            return ev.ev(c.args[0])
+        if f == "get_bytes_cnt_of_int" and c.args:
+            v0 = ev.ev(c.args[0])
+            a2 = ev.ev(A.arg_of(c, 1, "align_to_2n")) if A.arg_of(c, 1, "align_to_2n") is not None else True
+            bc = ev.ev(A.arg_of(c, 2, "byte_cnt")) if A.arg_of(c, 2, "byte_cnt") is not None else None
+            return ("CNT", v0, a2, bc)
+        if isinstance(c.func, ast.Attribute) and c.func.attr == "to_bytes" and len(c.args) + len(c.keywords) == 2:
+            v0 = ev.ev(c.func.value)
+            n0 = ev.ev(A.arg_of(c, 0, "length"))
+            o0 = ev.ev(A.arg_of(c, 1, "byteorder"))
+            return ("BYTES", v0, n0, o0)
+        return ordereval.NOT_MODELLED
+    for val in (0, 1, 0x1234):
+        for a2 in (True, False):
+            for bc in (None, 4):
+                for order in ("big", "little"):
+                    env = {"value": val, "align_to_2n": a2, "byte_cnt": bc, "endianness": Obj(value=order)}
+                    try:
+                        out = ordereval.Evaluator(env, ctx.fold_sym(vb), opaque_return=False, call_value=cv_vb).run(A.body_of(vb.node))
+                    except ordereval.Unsupported as ex:
+                        raise AnalysisError(f"C20.value_to_bytes: left the fragment: {ex}")
+                    want_o = ("BYTES", val, ("CNT", val, a2, bc), order)
+                    if not (out.kind == "return" and out.value == want_o):
+                        probs.append(f"value {val:#x}, align_to_2n {a2}, byte_cnt {bc}, {order}: {out.value!r}")
+    ctx.chk.decide(not probs, "C20.value_to_bytes.routing", vb.qual, "to_bytes(get_bytes_cnt_of_int(value, align_to_2n, byte_cnt), endianness)",
+                   "; ".join(probs[:2]), "width from get_bytes_cnt_of_int(value, align_to_2n, byte_cnt=byte_cnt), order from endianness", A.loc(MISC, vb.node))
 
 
 def rule_strides(ctx) -> None:
